@@ -11,6 +11,8 @@ RULE = ("random single-inheritance chains (depth<=3, attrs classes via attr.s/de
         "classes in between, exception bases) over the per-field space {default kind x init x kw_only x converter kind x "
         "validators x alias/private name x on_setattr} x class space {slots x frozen x cache_hash x kw_only x class "
         "on_setattr x pre/post}; per class several call shapes (positional prefix x keyword subset x malformed). "
+        "Every call is observed with the identities of the converter/factory invocations it made (in order, arguments blanked); "
+        "a call that stored a callback-produced value is made twice and those values must be distinct objects. "
         "Non-trivial = the class has >=1 field that is not (mandatory, positional, no converter); distinct = distinct (class spec, call). "
         "Thorough tier only (T3): additionally one `script` case per generated class -- the real source text of its "
         "__init__/__attrs_init__ parsed into the IR of Model/InitIR.lean and compared syntactically with the model generator's script")
@@ -26,7 +28,11 @@ BUDGET_S = {"quick": 45, "thorough": 480}
 LEVEL_TEXT = ("Lean theorems about the executable model of _make_init_script/_attrs_to_init_script/_determine_setters/"
               "_is_slot_attr and CPython argument binding (see Properties/C01.lean); tied to /repo by differential "
               "correspondence over random class chains x call shapes comparing signature, annotations, every field's "
-              "symbolic value and the exception kind. Argument binding and attribute lookup are modelled, not proved. "
+              "symbolic value, the exception kind and -- per call -- WHICH converter / factory callbacks ran, in order (event "
+              "identities; `C01_calls`, `C01_converter_once`: each converter exactly once, each factory exactly once iff "
+              "no value was supplied), plus object identity: every case with a callback-produced value is constructed "
+              "twice and such values must be distinct objects on the two instances (observed only, not modelled: a "
+              "breach shows up as a pseudo-event in the trace which no model output contains). Argument binding and attribute lookup are modelled, not proved. "
               "T3 (thorough tier): for every sampled class the parsed source of the generated initializer is checked to be "
               "exactly `genInit` of the class, and `C01_script_correct` proves that executing `genInit r` is `body r` for "
               "every class and environment -- so on those classes the theorems hold for all call shapes of the text that runs, "
@@ -86,9 +92,39 @@ def observe(case):
         raise RuntimeError("class spec did not define: " + case["__gen_error__"])
     if is_script(case):
         return observe_script(case)
-    _, obs = ib.construct(case["hspec"], case["call"], None, True)
-    obs["trace"], obs["excArgs"], obs["cache"] = [], None, None      # C02 / C04 observe these
+    h, call = case["hspec"], case["call"]
+    inst, obs = ib.construct(h, call, None, True)
+    calls = calls_of(obs["trace"])
+    # once through the converter IN THIS CALL, a FRESH factory result: construct a second instance the same way;
+    # a stored value that is the product of a callback (ib.Fresh) must be a different object on the two instances,
+    # and the second call must invoke the same callbacks.  A breach is recorded as a pseudo-event no model emits.
+    names = [n for n, _ in obs["values"]]
+    first = _raw_values(inst, names)
+    if obs["exc"] is None and any(isinstance(v, ib.Fresh) for v in first):
+        inst2, obs2 = ib.construct(h, call, None, True)
+        second = _raw_values(inst2, names)
+        for n, v1, v2 in zip(names, first, second):
+            if isinstance(v1, ib.Fresh) and v1 is v2:
+                calls.append({"id": {"kind": "shared-between-instances", "field": n, "idx": 0}, "args": []})
+        if calls_of(obs2["trace"]) != calls_of(obs["trace"]) or obs2["values"] != obs["values"]:
+            calls.append({"id": {"kind": "second-call-differs", "field": "", "idx": 0}, "args": []})
+    obs["trace"], obs["excArgs"], obs["cache"] = calls, None, None      # C02 / C04 observe the rest
     return obs
+
+
+def calls_of(trace):
+    """`C01.callsOf`: the converter / factory invocations of a trace (also a decoy class's, tagged), arguments blanked"""
+    return [{"id": dict(e["id"]), "args": []} for e in trace if e["id"]["kind"].rsplit(".", 1)[-1] in ("conv", "factory")]
+
+
+def _raw_values(inst, names):
+    out = []
+    for n in names:
+        try:
+            out.append(getattr(inst, n))
+        except BaseException:  # noqa: BLE001
+            out.append(None)
+    return out
 
 
 def nontrivial(case, model):
